@@ -32,14 +32,15 @@ namespace G
 export AsherahVerif.Generated.Server (session sessionReturns newHandler newHandlerReturns stream streamReturns
   handleRequest handleRequestReturns handleRequestCases getSession getSessionReturns encrypt encryptReturns
   decrypt decryptReturns close closeReturns fromProtobufDRR fromProtobufDRRReturns toProtobufDRR
-  toProtobufDRRReturns toProtobufDRRReads uninitializedText alreadyInitializedText encGuard decGuard closeGuard
+  toProtobufDRRReturns toProtobufDRRReads encryptFields decryptFields fromProtobufDRRFields toProtobufDRRFields
+  uninitializedText alreadyInitializedText encGuard decGuard closeGuard
   nilGuard protoFields)
 end G
 namespace E
 export AsherahVerif.Expected.Server (session sessionReturns newHandler newHandlerReturns stream streamReturns
   handleRequest handleRequestReturns handleRequestCases getSession getSessionReturns fromProtobufDRR
-  fromProtobufDRRReturns toProtobufDRR toProtobufDRRReturns toProtobufDRRReads uninitializedText
-  alreadyInitializedText protoFields)
+  fromProtobufDRRReturns toProtobufDRR toProtobufDRRReturns toProtobufDRRReads encryptFields decryptFields
+  fromProtobufDRRFields toProtobufDRRFields uninitializedText alreadyInitializedText protoFields)
 end E
 
 /-- `Stream`: deferred `Close` of an existing handler, Recv / EOF→nil / error→err / handle / Send /
@@ -59,11 +60,15 @@ theorem generated_session_setup :
     G.newHandlerReturns = E.newHandlerReturns ∧ G.getSession = E.getSession ∧
     G.getSessionReturns = E.getSessionReturns := ⟨rfl, rfl, rfl, rfl, rfl, rfl⟩
 
-/-- record mapping: nil-safe getters on the way in, plain field reads (two pointer hops) on the way out -/
+/-- record mapping: nil-safe getters on the way in, plain field reads (two pointer hops) on the way out;
+which protobuf field carries which `DataRowRecord` field, in both directions; what the encrypt and
+decrypt responses carry -/
 theorem generated_record_mapping :
     G.fromProtobufDRR = E.fromProtobufDRR ∧ G.fromProtobufDRRReturns = E.fromProtobufDRRReturns ∧
     G.toProtobufDRR = E.toProtobufDRR ∧ G.toProtobufDRRReturns = E.toProtobufDRRReturns ∧
-    G.toProtobufDRRReads = E.toProtobufDRRReads := ⟨rfl, rfl, rfl, rfl, rfl⟩
+    G.toProtobufDRRReads = E.toProtobufDRRReads ∧ G.fromProtobufDRRFields = E.fromProtobufDRRFields ∧
+    G.toProtobufDRRFields = E.toProtobufDRRFields ∧ G.encryptFields = E.encryptFields ∧
+    G.decryptFields = E.decryptFields := ⟨rfl, rfl, rfl, rfl, rfl, rfl, rfl, rfl, rfl⟩
 
 theorem generated_error_texts :
     G.uninitializedText = E.uninitializedText ∧ G.alreadyInitializedText = E.alreadyInitializedText := ⟨rfl, rfl⟩
